@@ -1070,6 +1070,7 @@ class FnRun:
         if o[0] in ('copy', 'move'):
             return self.read(o[1], mem, guard)
         self.E._cur_mem = mem
+        self.E._cur_fn = self.fn.name
         return self.E.const(o[1], ty_hint)
 
     def place_ty(self, p):
@@ -1484,9 +1485,20 @@ def _const(self, text, ty_hint=None):
         return v
     # named / promoted constant with a body in the dump
     tn = re.sub(r'::<[^<>]*(?:<[^<>]*>[^<>]*)*>', '', t)      # generic instantiation of the owner: f::<W>::promoted[3]
-    if re.fullmatch(r'[\w:]+(?:::promoted\[\d+\])?', tn):
+    mp = re.search(r'::(promoted\[\d+\])$', t)
+    if mp and getattr(self, '_cur_fn', None) and self.ix.find_const(self._cur_fn + '::' + mp.group(1)) is not None \
+            and (t.startswith('<') or not re.fullmatch(r'[\w:]+(?:::promoted\[\d+\])?', tn)):
+        # promoted constant of a trait-impl method, printed as `<T as Trait>::m::<W>::promoted[k]` at the use
+        # site but defined as `<impl at file:line>::m::promoted[k]`: it belongs to the function being executed
+        tn = self._cur_fn + '::' + mp.group(1)
         t = tn
         c = self.ix.find_const(t)
+    elif re.fullmatch(r'[\w:]+(?:::promoted\[\d+\])?', tn):
+        t = tn
+        c = self.ix.find_const(t)
+    else:
+        c = None
+    if c is not None or re.fullmatch(r'[\w:]+(?:::promoted\[\d+\])?', tn):
         if c is not None:
             key = ('const', t)
             if key not in self._const_cache:
@@ -1497,11 +1509,11 @@ def _const(self, text, ty_hint=None):
                 else:
                     fn = M.parse_function(body)
                     cmem = {}
-                    outer = self._cur_mem           # evaluating the body re-targets _cur_mem
+                    outer, outer_fn = self._cur_mem, getattr(self, '_cur_fn', None)     # evaluating the body re-targets both
                     try:
                         r = self.call_fn(fn, [], True, cmem)
                     finally:
-                        self._cur_mem = outer
+                        self._cur_mem, self._cur_fn = outer, outer_fn
                     if r is DIVERGE:
                         raise Unsupported('constant %s did not evaluate' % t)
                     self._const_cache[key] = (r[0], cmem)
